@@ -32,7 +32,7 @@ package drummer
 // Input line:  {"tick":T,"hosts":[{"a":addr,"r":region,"t":tick,"s":[shard ids],"p":[[shard,replica]..]}],
 //               "shards":[{"id":I,"app":name,"m":[member ids]}],
 //               "regions":null|{"r":[names],"c":[counts]},"draws":[ints]}
-// Output:      first line {"ttl":nodeHostTTL}; then one line per case
+// Output:      first line {"ttl":nodeHostTTL,"consts":[every string-valued setting of settings.Soft]}; then one line per case
 //              {"o":"plan"|"err"|"panic"|"ood","msg":..,"used":draws consumed,"nilreqs":bool,
 //               "vr":"ok"|"err"|"panic"|"-" (validateRegions verdict),"vrmsg":..,"ra":[names after],"rc":[counts after],
 //               "reqs":[{"t":type,"sid":..,"cm":[..],"cc":..,"rids":[..],"addrs":[..],
@@ -43,12 +43,15 @@ import (
 	"encoding/json"
 	"fmt"
 	"os"
+	"reflect"
+	"sort"
 	"testing"
 
 	"github.com/lni/dragonboat/v4/logger"
 	"github.com/lni/goutils/random"
 
 	pb "github.com/lni/drummer/v3/drummerpb"
+	"github.com/lni/drummer/v3/settings"
 )
 
 type vlOutOfDraws struct{}
@@ -231,6 +234,43 @@ func vlRun(c *vlCase) (out vlOut) {
 	return out
 }
 
+// vlSettingStrings: every string-valued setting of the settings package, read from the running
+// program (reflection over settings.Soft, nested structs included): names the code base may treat
+// specially (the unknown-region name, client names, ...).  The check puts them, and spelling variants
+// of them, into the alphabet of region names.
+func vlSettingStrings() []string {
+	seen := map[string]struct{}{}
+	var walk func(v reflect.Value, depth int)
+	walk = func(v reflect.Value, depth int) {
+		if depth > 4 {
+			return
+		}
+		switch v.Kind() {
+		case reflect.String:
+			seen[v.String()] = struct{}{}
+		case reflect.Struct:
+			for i := 0; i < v.NumField(); i++ {
+				walk(v.Field(i), depth+1)
+			}
+		case reflect.Ptr, reflect.Interface:
+			if !v.IsNil() {
+				walk(v.Elem(), depth+1)
+			}
+		case reflect.Slice, reflect.Array:
+			for i := 0; i < v.Len() && i < 64; i++ {
+				walk(v.Index(i), depth+1)
+			}
+		}
+	}
+	walk(reflect.ValueOf(settings.Soft), 0)
+	out := make([]string, 0, len(seen))
+	for s := range seen {
+		out = append(out, s)
+	}
+	sort.Strings(out)
+	return out
+}
+
 func TestVerifLaunch(t *testing.T) {
 	in, err := os.Open(os.Getenv("VERIF_IN"))
 	if err != nil {
@@ -245,7 +285,8 @@ func TestVerifLaunch(t *testing.T) {
 	logger.GetLogger("drummer").SetLevel(logger.CRITICAL)
 	w := bufio.NewWriterSize(outf, 1<<20)
 	defer w.Flush()
-	fmt.Fprintf(w, "{\"ttl\":%d}\n", nodeHostTTL)
+	consts, _ := json.Marshal(vlSettingStrings())
+	fmt.Fprintf(w, "{\"ttl\":%d,\"consts\":%s}\n", nodeHostTTL, consts)
 	sc := bufio.NewScanner(in)
 	sc.Buffer(make([]byte, 1<<20), 1<<26)
 	enc := json.NewEncoder(w)
